@@ -1016,7 +1016,13 @@ func (w *w1World) checkCommands(cl *w1SimClient) {
 					s.Violate("C09", "preauth-handler-invoked", "handler ran for unauthenticated command", "client %d: handler %s ran for a %s sent before connect", cl.idx, cb.Kind, c.Kind)
 				}
 			}
-			if cl.isClosed() && cl.closeCode != DisconnectBadRequest.Code && cl.closeCode != DisconnectConnectionClosed.Code && c.Returned && !c.Proceed && i == 0 {
+			otherCloser := false // a server-side disconnect of this connection competes for the close code
+			for _, op := range w.nodeOps {
+				if (op.Kind == "ndisc" && op.User == cl.spec.User) || (op.Kind == "cdisc" && op.C == cl.idx) {
+					otherCloser = true
+				}
+			}
+			if cl.isClosed() && !otherCloser && cl.closeCode != DisconnectBadRequest.Code && cl.closeCode != DisconnectConnectionClosed.Code && c.Returned && !c.Proceed && i == 0 {
 				s.Violate("C09", "preauth-wrong-code", "wrong disconnect code for unauthenticated command", "client %d: closed with %d after %s before connect, expected bad request", cl.idx, cl.closeCode, c.Kind)
 			}
 			continue
